@@ -62,7 +62,7 @@ MODELLED_SHA = {
 # "never a keyword" relative to the tables the source declares NOW; the oracle additionally insists that no reserved
 # word of this snapshot is emitted as a name, so that dropping a keyword from a table is reported (adding is fine).
 PINNED_KEYWORDS = {
-    "GENERAL_PDDL_KEYWORDS": ["action", "adl", "and", "conditional-effects", "constants", "contingent", "continuous-effects", "decrease", "define", "derived", "derived-predicates", "disjunctive-preconditions", "domain", "durative-actions", "effect", "either", "equality", "existential-preconditions", "exists", "fluents", "forall", "goal", "imply", "increase", "init", "maximize", "metric", "minimize", "negative-preconditions", "not", "number", "objects", "or", "parameters", "precondition", "predicates", "problem", "quantified-preconditions", "requirements", "scale-down", "scale-up", "strips", "time", "timed-initial-effects", "timed-initial-literals", "total-time", "types", "typing", "universal-preconditions", "when"],
+    "GENERAL_PDDL_KEYWORDS": ["action", "adl", "and", "assign", "conditional-effects", "constants", "contingent", "continuous-effects", "decrease", "define", "derived", "derived-predicates", "disjunctive-preconditions", "domain", "durative-actions", "effect", "either", "equality", "existential-preconditions", "exists", "fluents", "forall", "goal", "imply", "increase", "init", "maximize", "metric", "minimize", "negative-preconditions", "not", "number", "objects", "or", "parameters", "precondition", "predicates", "problem", "quantified-preconditions", "requirements", "scale-down", "scale-up", "strips", "time", "timed-initial-effects", "timed-initial-literals", "total-cost", "total-time", "types", "typing", "universal-preconditions", "when"],
     "TEMPORAL_PDDL_KEYWORDS": ["all", "at", "condition", "duration", "durative-action", "end", "over", "start"],
     "PDDL3_KEYWORDS": ["always", "always-within", "at-most-once", "constraints", "hold-after", "hold-during", "is-violated", "preference", "preferences", "sometime", "sometime-after", "sometime-before", "within"],
     "PDDL_PLUS_KEYWORDS": ["event", "process"],
